@@ -560,9 +560,99 @@ func c16Rank(c *Ctx) {
 	c.Sample("unrank", rankCase{Fn: "Unrank", R: 123456, K: 4})
 }
 
+// c16Histories: the functions are pure, so a result must not depend on earlier calls (a memo table or a
+// "last result" cache would make it so). Every sequence of calls of length <= 3 (4 thorough) over a small
+// alphabet is executed sequentially in one goroutine and every result compared with the oracle.
+type callStep struct {
+	Fn string `json:"fn"`
+	A  int    `json:"a"`
+	B  int    `json:"b"`
+}
+
+func evalCall(st callStep) (string, string) {
+	var got, want string
+	msg, p := try(func() {
+		switch st.Fn {
+		case "Unrank":
+			got = fmt.Sprint(comb.Unrank(st.A, st.B))
+			w, _, _ := unrankOracle(st.A, st.B)
+			want = fmt.Sprint(w)
+		case "Coeff":
+			got = fmt.Sprint(comb.Coeff(st.A, st.B))
+			want = bigBinom(uint64(st.A), uint64(st.B)).String()
+		case "Rank":
+			// the k-subset {A, A+1, .., A+B-1}
+			s := make([]int, st.B)
+			wv := big.NewInt(0)
+			for i := range s {
+				s[i] = st.A + i
+				wv.Add(wv, bigBinom(uint64(s[i]), uint64(i+1)))
+			}
+			got = fmt.Sprint(comb.Rank(s))
+			want = wv.String()
+		}
+	})
+	if p {
+		got = "panic: " + msg
+	}
+	return got, want
+}
+
+func evalCallSeq(seq []callStep) *Failure {
+	for i, st := range seq {
+		got, want := evalCall(st)
+		if got != want {
+			// a failure of the last call alone is an input failure (reported by the other phases with its own class)
+			alone, _ := evalCall(st)
+			cl := "comb/" + st.Fn + "/result-depends-on-earlier-calls"
+			if alone != want {
+				cl = "comb/" + st.Fn + "/wrong-result"
+			}
+			return &Failure{Class: cl, What: fmt.Sprintf("after the calls %s, call #%d %s(%d,%d) returned %s, correct is %s", js(seq[:i]), i, st.Fn, st.A, st.B, got, want), Kind: "call-seq", Replay: seq}
+		}
+	}
+	return nil
+}
+
+func c16Histories(c *Ctx) {
+	var alpha []callStep
+	for k := 1; k <= 3; k++ {
+		for r := 0; r <= 4; r++ {
+			alpha = append(alpha, callStep{"Unrank", r, k})
+		}
+	}
+	alpha = append(alpha, callStep{"Unrank", 0, 0}, callStep{"Coeff", 6, 2}, callStep{"Coeff", 40, 3}, callStep{"Coeff", 7, 0}, callStep{"Rank", 1, 2}, callStep{"Rank", 0, 3})
+	L := 3
+	if c.Thorough() {
+		L = 4
+	}
+	var n int64
+	var seq []callStep
+	var rec func()
+	rec = func() {
+		if len(seq) > 0 {
+			s := append([]callStep{}, seq...)
+			c.Check(func() *Failure { return evalCallSeq(s) })
+			n++
+		}
+		if len(seq) == L {
+			return
+		}
+		for _, a := range alpha {
+			seq = append(seq, a)
+			rec()
+			seq = seq[:len(seq)-1]
+		}
+	}
+	rec() // sequential on purpose: the state in question would be process-global
+	c.SetCount("call_sequences", n)
+	c.Trans(n)
+}
+
 func runC16(c *Ctx) {
 	c.Level = "exploration"
-	c.Rule = "CoeffUint64/Coeff against incremental math/big binomials: every row n<=70 x all k, every k in 3..40 x every n from 0 to T_k+64 (both argument forms; k=3 interior thinned in quick), k=2 on +-2048 windows of every power of two (all n<=2^32+64 in thorough), k in {0,1} and far-region windows; Coeffs(n<=66); Rank on every subset of [0,16) against its CombinationsColex position; Unrank on every rank below 3*10^5 (2*10^6) for k<=6, boundary ranks C(l,k)+-1, and a fixed probe set of overflowing ranks under a deadline; non-trivial = case with k >= 2 or beyond the table rows"
+	c.Rule = "CoeffUint64/Coeff against incremental math/big binomials: every row n<=70 x all k, every k in 3..40 x every n from 0 to T_k+64 (both argument forms; k=3 interior thinned in quick), k=2 on +-2048 windows of every power of two (all n<=2^32+64 in thorough), k in {0,1} and far-region windows; Coeffs(n<=66); Rank on every subset of [0,16) against its CombinationsColex position; Unrank on every rank below 3*10^5 (2*10^6) for k<=6, boundary ranks C(l,k)+-1, and a fixed probe set of overflowing ranks under a deadline; every sequence of <=3 (4) calls over a 21-call alphabet run sequentially (results must not depend on earlier calls); non-trivial = case with k >= 2 or beyond the table rows"
+	c16Histories(c)
 	c16Coeff(c)
 	c16Rank(c)
 	c.Assume("Unrank inputs whose correct linear walk exceeds 2e7 steps without overflow (k=1, r>2e7) are not evaluated")
@@ -582,6 +672,10 @@ func replayC16(kind string, raw json.RawMessage) *Failure {
 		var rc rankCase
 		json.Unmarshal(raw, &rc)
 		return checkUnrank(rc.R, rc.K, 20*time.Second)
+	case "call-seq":
+		var seq []callStep
+		json.Unmarshal(raw, &seq)
+		return evalCallSeq(seq)
 	case "rank":
 		var rc rankCase
 		json.Unmarshal(raw, &rc)
